@@ -448,7 +448,8 @@ func (h *harness) startup(fileYAML map[string]any, rawYAML string, env map[strin
 			}
 		}
 	}
-	if path != "" && explicitPath == "" && form >= 0 && h.nfile%7 == 3 {
+	byEnv := path != "" && form >= 0 && h.nfile%4 == 1 && env["BHS_CONFIG_FILE"] == ""
+	if path != "" && explicitPath == "" && form >= 0 && h.nfile%7 == 3 && !byEnv {
 		// the option names the file; an environment variable BHS_CONFIG_FILE pointing elsewhere does not change that
 		dp := filepath.Join(h.dir, fmt.Sprintf("decoy-env-%d.yaml", h.nfile))
 		if b, err := yaml.Marshal(decoy(fileYAML)); err == nil && os.WriteFile(dp, b, 0o600) == nil {
@@ -463,6 +464,11 @@ func (h *harness) startup(fileYAML map[string]any, rawYAML string, env map[strin
 	switch {
 	case form < 0:
 		os.Args = []string{"block-headers-service"}
+	case byEnv:
+		// no option at all: the file is selected through the environment (config_file is a key like every other)
+		os.Args = []string{"block-headers-service"}
+		_ = os.Setenv("BHS_CONFIG_FILE", path)
+		h.r.Count("start_ups_with_the_file_selected_through_BHS_CONFIG_FILE", 1)
 	case form%3 == 0:
 		os.Args = []string{"block-headers-service", "-C", path}
 	case form%3 == 1:
@@ -687,7 +693,7 @@ func copyDetail(d map[string]any) map[string]any {
 func body(r *ev.Run) {
 	r.Rule("precedence: every leaf key of config.AppConfig (reflection over mapstructure tags) x every subset of {env, file} providing a value of the key's type " +
 		"(values valid, different from the default and from each other; for two-valued domains (bool, db.engine, logging.format) the subset {env,file} is run in both variants env=default/file=other and env=other/file=default so that env-over-file is distinguishable); " +
-		"the subset {env,file} is run in both orders of the two values; the three spellings of the config-file option (-C f, --config_file f, --config_file=f) rotate over the cases; plus the no-option start, an empty file, /repo/config.example.yaml, and seeded random multi-key assignments. " +
+		"the subset {env,file} is run in both orders of the two values; the three spellings of the config-file option (-C f, --config_file f, --config_file=f) rotate over the cases, and every fourth file is selected through BHS_CONFIG_FILE with no option at all; plus the no-option start, an empty file, /repo/config.example.yaml, and seeded random multi-key assignments. " +
 		"validation: generated DbConfig sections (unsupported engines, empty SQLite path, every non-empty subset of missing required Postgres fields, prepared_db with empty path / missing file of four kinds) and their valid neighbours, each checked directly, through AppConfig.Validate and after being delivered through a YAML file and the real start-up path; plus seeded random sections against a predicate oracle. " +
 		"evaluations = start-ups / Validate calls judged; distinct = distinct (key, subset, variant), multi-key source patterns, validation classes; non-trivial = at least one source overrides a key, or a validation verdict.")
 	r.Assume("the documented defaults are those of config/defaults.go (README: 'it will use the default configuration from file defaults.go'); config.example.yaml is compared for information only",
